@@ -42,6 +42,7 @@
 -/
 import Torf.Lemmas.PipelineLive
 import Torf.Lemmas.PipelineOut
+import Torf.Lemmas.PipelineMeasure
 namespace Torf.C03
 open Torf.Pipeline
 
@@ -110,6 +111,32 @@ theorem C03_returned_complete {cfg : Cfg} {s : State} {c : List Nat} (hwf : wf c
     exact hok.1
   · rw [← C03_sorted_result hwf hnf hcb h hr]
     exact (List.mergeSort_perm c _).symm
+
+/-- No livelock among progress steps: every execution, under any schedule and any timing of the
+    timeouts, contains at most `14·N + 4·#items + 27` steps that change the core state.  Together
+    with `C03_deadlock_free`: the only way not to terminate is to repeat idle steps (the vital
+    hasher's idle timeout, janitor rounds that prune nothing, the janitor's busy wait) forever
+    while a progress step stays enabled, which a fair scheduler does not do. -/
+theorem C03_progress_bound {cfg : Cfg} {s : State} {ls : List Label} (hrf : cfg.refuse = [])
+    (h : run cfg (init cfg) ls = some s) : progressSteps cfg (init cfg) ls ≤ progressBound cfg := by
+  have := progressSteps_le hrf ls (init cfg) s (Inv.init cfg) h
+  rw [mu_init] at this
+  omega
+
+/-- an idle step leaves the core state — and with it the enabledness of every other thread's
+    steps — unchanged; a progress step strictly decreases the measure `mu` -/
+theorem C03_progress_measure {cfg : Cfg} {s s' : State} {l : Label} (hrf : cfg.refuse = [])
+    (h : Reachable cfg s) (hs : step cfg s l = some s') :
+    (isProgress s s' = true → mu cfg s' < mu cfg s) ∧ (isProgress s s' = false → core s' = core s) := by
+  constructor
+  · intro hp
+    have := mu_progress hrf (Inv.of_reachable hrf h) hs
+    rw [hp] at this
+    simp only [↓reduceIte] at this
+    omega
+  · intro hp
+    simp only [isProgress, decide_eq_false_iff_not, Decidable.not_not] at hp
+    exact hp.symm
 
 /-! ### the hypotheses are satisfiable: concrete schedules -/
 
@@ -181,6 +208,9 @@ example : outcomeOk cfgOk (.returned [0]) = true := by
   exact (Option.some.inj hr) ▸ hok
 
 example : outcomeOk cfgBad (.raised (.item 0)) = true := by decide
+
+/-- the complete schedule of `cfgOk` consists of 24 progress steps; the bound is 45 -/
+example : progressSteps cfgOk (init cfgOk) schedOk = 24 ∧ progressBound cfgOk = 45 := by decide
 
 /-- the hypotheses of `C03_deadlock_free` hold in non-terminal reachable states, e.g. while main
     is blocked on the empty hash queue and while it is blocked in `join` -/
